@@ -44,11 +44,22 @@ def order_for(f):
     return ALL
 
 def sh(cmd, cwd, timeout, env=None):
+    """run in its own process group, so that a timeout also ends the test binaries cargo started"""
+    import signal
+    p = subprocess.Popen(cmd, cwd=cwd, stdout=subprocess.PIPE, stderr=subprocess.STDOUT, text=True, env=env, start_new_session=True)
     try:
-        p = subprocess.run(cmd, cwd=cwd, stdout=subprocess.PIPE, stderr=subprocess.STDOUT, text=True, timeout=timeout, env=env)
-        return p.returncode, p.stdout
-    except subprocess.TimeoutExpired as e:
-        return 124, (e.stdout or '') if isinstance(e.stdout, str) else ''
+        out, _ = p.communicate(timeout=timeout)
+        return p.returncode, out
+    except subprocess.TimeoutExpired:
+        try:
+            os.killpg(p.pid, signal.SIGKILL)
+        except Exception:
+            pass
+        try:
+            out, _ = p.communicate(timeout=10)
+        except Exception:
+            out = ''
+        return 124, out or ''
 
 def worker(wid, work, queue, lock, out):
     wdir = os.path.join(work, 'w%d' % wid)
@@ -70,7 +81,7 @@ def worker(wid, work, queue, lock, out):
         res = dict(m); res.pop('old', None) if m['op'] == 'del' else None
         try:
             mutate.apply(repo, m)
-            rc, o = sh(['cargo', 'test', '--workspace', '--no-fail-fast', '--offline'], repo, 900, env)
+            rc, o = sh(['cargo', 'test', '--workspace', '--no-fail-fast', '--offline'], repo, 240, env)
             if rc != 0:
                 res['status'] = 'stillborn' if 'error[' in o or 'error:' in o and 'test result' not in o else 'killed-by-tests'
             else:
